@@ -1019,6 +1019,13 @@ def text_cases(prefix, seed, n_valid, n_mut, n_soup, exhaustive=0):
                               "lead_blank": i % 3 == 0, "trailing_nl": 0.7, "redundant": 0.2, "odd_names": i % 5 == 0})
         valid.append(c["src"])
         cases.append({"id": c["id"], "kind": "parse", "src": c["src"], "text_kind": "valid"})
+    # truncated exactly at the end of a loop / while / repeat header (no line break), after `end`, after `let x =`, inside a call
+    import re as _re
+    k = 0
+    for src in valid[:60]:
+        for m in list(_re.finditer(r"(?m)^[ \t]*(loop|while)\([^\n]*\)|^[ \t]*end(?= )|^[ \t]*end (loop|while)|let \w+ ?=|ite\(|repeat\([^\n)]*\)|bits\(\d+,", src))[:6]:
+            cases.append({"id": "%s-cut%d" % (prefix, k), "kind": "parse", "src": src[:m.end()], "text_kind": "cut-at-construct"})
+            k += 1
     for i in range(n_mut):
         src, what = mutate_text(rng, rng.choice(valid))
         cases.append({"id": "%s-m%d" % (prefix, i), "kind": "parse", "src": src, "text_kind": "mutation", "what": what})
@@ -1676,7 +1683,9 @@ def replay_cases(seed, tier):
             open_ = ["loop(k,%d)" % rng.randrange(2, 4)] if kind == "loop" else ["let w = 0;", "while(w < 2)"]
             body = ["resetRandom;", "(random(%d)) X%s" % (b, pad), "let t = random(%d);" % b] + (["let w = w + 1;"] if kind == "while" else [])
             lines = [hdrline] + decl + ["(random(%d)) X%s" % (b, pad)] + open_ + body + ["end " + kind, "(random(%d)) X%s" % (b, pad)]
-        cases.append({"id": "c17-replay-%d" % i, "kind": "run", "src": "\n".join(lines) + "\n", "sigs": sigs, "layout": [1], "table": [["1"], ["2"]],
+        cases.append({"id": "c17-replay-%d" % i, "kind": "run", "src": "\n".join(lines) + "\n", "sigs": sigs, "layout": [1],
+                      # answers that repeat (a device whose outputs do not change between rows) and answers that alternate
+                      "table": rng.choice([[["1"]], [["1"], ["1"], ["2"], ["2"], ["2"]], [["1"], ["2"]], [["3"], ["3"], ["1"]]]),
                       "echo": 0, "wdefault": 0, "faults": [], "max": 1000, "seed": rng.randrange(0, 2 ** 32)})
     return cases
 
